@@ -133,8 +133,9 @@ class IdModel(SymModel):
 
 
 class StubSolver:
-    def __init__(self, ex, kind, max_checks=6, script=None, logic=None):
+    def __init__(self, ex, kind, max_checks=6, script=None, logic=None, core_mode="choice"):
         self.ex, self.kind, self.logic = ex, kind, logic
+        self.core_mode = core_mode
         self.frames = [[]]
         self.tracked = {}
         self.objectives = []
@@ -219,7 +220,7 @@ class StubSolver:
             raise z3.Z3Exception("core is not available")
         core = []
         for name in sorted(self.tracked):
-            if self.ex.choose(2, "core") == 0:
+            if self.core_mode == "all" or (self.core_mode == "choice" and self.ex.choose(2, "core") == 0):
                 core.append(z3.Bool(name))
         self.calls.append(("unsat_core", [str(c) for c in core]))
         self.last_core = core
@@ -242,6 +243,16 @@ class StubSolver:
         return z3.Solver().param_descrs()
 
 
+class _StubCtorMeta(type):
+    """`z3.Solver(...)` / `z3.Optimize(...)` return the stub; isinstance(x, z3.Optimize) keeps working."""
+
+    def __call__(cls, *a, **kw):
+        return cls._factory(cls._kind, None)
+
+    def __instancecheck__(cls, inst):
+        return isinstance(inst, StubSolver) and inst.kind == cls._kind
+
+
 class Z3Proxy:
     """Stands for the name `z3` inside processscheduler.solver: the three solver constructors return
     the stub, set_option calls are recorded, everything else is the real z3."""
@@ -249,12 +260,8 @@ class Z3Proxy:
     def __init__(self, factory):
         self._factory = factory
         self.global_options = []
-
-    def Solver(self, *a, **kw):
-        return self._factory("Solver", None)
-
-    def Optimize(self, *a, **kw):
-        return self._factory("Optimize", None)
+        self.Solver = _StubCtorMeta("Solver", (), {"_factory": staticmethod(factory), "_kind": "Solver"})
+        self.Optimize = _StubCtorMeta("Optimize", (), {"_factory": staticmethod(factory), "_kind": "Optimize"})
 
     def SolverFor(self, logic, *a, **kw):
         return self._factory("SolverFor", logic)
@@ -289,14 +296,14 @@ class Clock:
 
 
 @contextlib.contextmanager
-def stubbed(ex, max_checks=6, script=None, slow_at=(), holder=None):
+def stubbed(ex, max_checks=6, script=None, slow_at=(), holder=None, core_mode="choice"):
     """Replace z3 / time as seen by processscheduler.solver for the duration of a run."""
     import processscheduler.solver as pss
 
     created = []
 
     def factory(kind, logic):
-        s = StubSolver(ex, kind, max_checks=max_checks, script=script, logic=logic)
+        s = StubSolver(ex, kind, max_checks=max_checks, script=script, logic=logic, core_mode=core_mode)
         created.append(s)
         return s
 
